@@ -5,11 +5,13 @@ from lib import driver
 from lib.rec import Rec
 
 LEVEL = "exploration"
-RULE = ("G4: searches built from valid Sid strings of every configured type by replacing segments with '*', '>', comma lists, partial "
-        "globs and aliases, collapsing spans into '**', appending 0..2 filters (existing, deeper, foreign, comma-valued, alias-valued, "
-        "invalid, optional) plus malformed forms; every call of unfold_search in the process (M-unfold wrapper, all aliases re-bound) "
-        "is compared as a set of uris with the independent R4 model (R1 typing, R3 query, alias / leaf / narrowing tables of the live "
-        "configuration). Non-trivial = distinct search string whose R4 result is non-empty or MAY_RAISE.")
+RULE = ("G4: searches built from valid Sid strings of every configured type by replacing segments with '*', '>', comma lists, partial globs and "
+        "aliases, collapsing spans into '**', appending 0..2 filters (existing, deeper, foreign, comma-valued, alias-valued, invalid, optional) "
+        'plus malformed forms; every call of unfold_search in the process (M-unfold wrapper, all aliases re-bound) is compared as a set of uris '
+        'with the independent R4 model (R1 typing, R3 query, alias / leaf / narrowing tables of the live configuration). After half of the '
+        "'root/**' searches the plain star searches 'root/*', 'root/*/*', ... of every depth are asked (and judged). The hand-through tables "
+        '(leaf keys, aliases, narrowing) are read from the configuration as written, not as loaded. Non-trivial = distinct search string whose '
+        'R4 result is non-empty or MAY_RAISE.')
 ASSUME = ["not judged (UNSPECIFIED, counted): whitespace in the search, empty alternatives, repeated / '~' / blank user filters, several '?', "
           "'**' not forming a whole segment; when R4 says MAY_RAISE a SpilException or a (typed, query-free) list are both accepted",
           "do_extrapolate=True is judged only for: no foreign exception, typed, query-free, duplicate-free, and containing every typed search "
